@@ -490,6 +490,38 @@ def c08_state(ctx):
     state_discipline(ctx, ('bespokeasm.assembler.preprocessor', 'bespokeasm.assembler.line_object.preprocessor_line', 'bespokeasm.assembler.assembly_file', 'bespokeasm.assembler.line_object.factory'))
 
 
+def c08_openers(ctx):
+    ctx.rule('C08.9', 'every opener (#if, #ifdef, #ifndef) and every #elif may be continued by #elif / #else', 2)
+    want = {'ElifPreprocessorCondition': ({'IfPreprocessorCondition', 'ElifPreprocessorCondition', 'IfdefPreprocessorCondition'}, True)}
+    for cname, (need, positive) in want.items():
+        f = ctx.repo.func(f'{COND}.{cname}._check_and_set_parent')
+        st = [s_ for s_, t, v in self_attr_stores(f.node, '_parent')]
+        ok = len(st) == 1
+        got = set()
+        if ok:
+            r_ = resolver(ctx, f, inline=False)
+            cl = facts_at(ctx, f, st[0], r_)
+            # the parent is stored under a disjunction of isinstance tests: the accepted kinds
+            for c in cl:
+                if all(l[0] == 'isinstance' and l[-1] is True for l in c):
+                    got |= {l[2] for l in c}
+            ok = got == need
+        ctx.check(ok, f'chain:{cname}:accepted-parents', f.site(), f'{cname[:-21] or cname} continues a chain opened by #if, #ifdef or #ifndef (or another #elif)',
+                  f'accepted parent kinds: {sorted(got)}')
+    f = ctx.repo.func(f'{COND}.ElsePreprocessorCondition._check_and_set_parent')
+    r_ = resolver(ctx, f, inline=False)
+    st = [s_ for s_, t, v in self_attr_stores(f.node, '_parent')]
+    ok = len(st) == 1
+    rej = set()
+    if ok:
+        for c in facts_at(ctx, f, st[0], r_):
+            for l in c:
+                if l[0] == 'isinstance' and l[-1] is False:
+                    rej.add(l[2])
+        ok = rej == {'ElsePreprocessorCondition', 'EndifPreprocessorCondition'}
+    ctx.check(ok, 'chain:else:accepted-parents', f.site(), '#else continues any chain that has no #else yet', f'rejected parent kinds: {sorted(rej)}')
+
+
 def c08_latch(ctx):
     ctx.rule('C08.8', 'a branch decision is taken once, when its directive is reached: no condition class opts out of the latch', 3)
     base = ctx.repo.cls(COND + '.PreprocessorCondition')
@@ -524,13 +556,14 @@ def c08_per_file(ctx):
     from rules.c17 import c17_5
     c17_5(ctx)
 
-RULES = [c08_1, c08_2, c08_3, c08_6, c08_7, mute_state, c08_state, c08_latch, c08_numeric, c08_per_file]
+RULES = [c08_1, c08_2, c08_3, c08_6, c08_7, mute_state, c08_state, c08_latch, c08_openers, c08_numeric, c08_per_file]
 
 _CSF = 'assembler/preprocessor/condition_stack.py'
 _CF = 'assembler/preprocessor/condition.py'
 _PF = 'assembler/line_object/preprocessor_line/factory.py'
 _AF = 'assembler/assembly_file.py'
 MUTANTS = [
+    V('c08-elif-not-after-ifdef', 'assembler/preprocessor/condition.py', " \\\n                or isinstance(parent, IfdefPreprocessorCondition):", ":", 'C08.9'),
     V('c08-ifdef-not-latched', 'assembler/preprocessor/condition.py', "class IfdefPreprocessorCondition(PreprocessorCondition):\n", "class IfdefPreprocessorCondition(PreprocessorCondition):\n    def latch(self, preprocessor):\n        return self.evaluate(preprocessor)\n\n", 'C08.8'),
     V('c08-elif-bare-uses-if-pattern', 'assembler/preprocessor/condition.py', "            PREPROCESSOR_CONDITION_ELIF_PATTERN,\n            PREPROCESSOR_CONDITION_IMPLIED_ELIF_PATTERN,", "            PREPROCESSOR_CONDITION_ELIF_PATTERN,\n            PREPROCESSOR_CONDITION_IMPLIED_IF_PATTERN,", 'C08.7'),
     V('c08-top-only', _CSF, '        self._active.append(enclosing_active and condition.latch(preprocessor))', '        self._active.append(condition.latch(preprocessor))', 'C08.1'),
